@@ -146,10 +146,11 @@ func (a *c13Asm) operand(r *rng, lat []*big.Int, oddKinds int) *c13Asm {
 type c13Input struct {
 	Script string `json:"script"`
 	Base   int64  `json:"base"`
-	Limit  int64  `json:"limit"` // datoshi
+	Limit  int64  `json:"limit"`          // datoshi
+	Pred   int    `json:"pred,omitempty"` // > 0: the run after Reset() uses predecessor Pred-1 alone (else chosen by the script's hash)
 }
 
-// c13Run executes the case on the real VM (twice) and records it.
+// c13Run executes the case on the real VM (twice on fresh VMs, once after Reset() on a used VM) and records it.
 func c13Run(co *caseOut, kind, tag string, in c13Input) {
 	script := unhx(in.Script)
 	r1 := c13Exec(script, in.Base, in.Limit)
@@ -158,8 +159,17 @@ func c13Run(co *caseOut, kind, tag string, in c13Input) {
 		co.violation(kind, "Go panic escaped Run: "+r1.Panic, in, r1)
 		return
 	}
-	if r1.Halt != r2.Halt || r1.Gas != r2.Gas || r1.Stack != r2.Stack || r1.Steps != r2.Steps {
+	if !c13SameRun(r1, r2) {
 		co.violation(kind, "execution is not deterministic: two runs of the same script differ", in, []c13Result{r1, r2})
+		return
+	}
+	r3, ptags := c13ExecReused(script, in.Base, in.Limit, c13PickPreds(script, in.Pred))
+	if r3.Panic != "" {
+		co.violation(kind, "Go panic escaped Run on a reused VM: "+r3.Panic, in, r3)
+		return
+	}
+	if !c13SameRun(r1, r3) {
+		co.violation(kind, "state leaks through VM.Reset(): the execution after Reset() on a VM that had executed [ "+ptags+"] differs from the execution on a fresh VM", in, []c13Result{r1, r3})
 		return
 	}
 	if r1.Halt && in.Limit >= 0 && r1.Gas > in.Limit {
@@ -240,6 +250,18 @@ func runC13(args []string) error {
 	// 0. every VM limit at limit-1, limit, limit+1 (deterministic)
 	for _, b := range c13Boundaries() {
 		c13Run(co, "boundary", b.tag, c13Input{Script: hx(b.script), Base: b.base, Limit: b.limit})
+	}
+	// 0b. VM reuse: every predecessor x every probe whose outcome depends on a register Reset() has to clear, and
+	// the predecessors themselves as scripts under test
+	co.extra["x_predecessors"] = c13PredOutcomes()
+	for i := range c13Preds() {
+		for _, p := range c13ResetProbes() {
+			c13Run(co, "reset", p.tag, c13Input{Script: hx(p.a.b), Base: p.base, Limit: p.limit, Pred: i + 1})
+		}
+		for _, j := range []int{i, (i + 1) % len(c13Preds())} { // the predecessors themselves, after themselves and after their neighbour
+			q := c13Preds()[j]
+			c13Run(co, "reset", "pred-"+q.tag, c13Input{Script: hx(q.script), Base: q.base, Limit: q.limit, Pred: i + 1})
+		}
 	}
 
 	// 1. arithmetic / bitwise / comparison, per instruction
@@ -558,7 +580,7 @@ func c13Control(a *c13Asm, r *rng) string {
 	switch r.intn(14) {
 	case 0: // conditional jumps over a push
 		op := pick(r, []opcode.Opcode{opcode.JMPEQ, opcode.JMPNE, opcode.JMPGT, opcode.JMPGE, opcode.JMPLT, opcode.JMPLE})
-		a.i(int64(r.intn(3) - 1)).i(int64(r.intn(3) - 1)).op(op, 3).op(opcode.PUSH7).op(opcode.PUSH8)
+		a.i(int64(r.intn(3)-1)).i(int64(r.intn(3)-1)).op(op, 3).op(opcode.PUSH7).op(opcode.PUSH8)
 		return "jmpcmp"
 	case 1:
 		op := pick(r, []opcode.Opcode{opcode.JMPIF, opcode.JMPIFNOT})
@@ -585,7 +607,7 @@ func c13Control(a *c13Asm, r *rng) string {
 		return "recursion"
 	case 7: // loop counting down
 		// 0: PUSH n ; 1: DEC ; 2: DUP ; 3: JMPIF -2 (->1) ; 5: RET
-		a.i(int64(1 + r.intn(12))).op(opcode.DEC).op(opcode.DUP).op(opcode.JMPIF, 0xfe)
+		a.i(int64(1+r.intn(12))).op(opcode.DEC).op(opcode.DUP).op(opcode.JMPIF, 0xfe)
 		return "loop"
 	case 8: // try / catch
 		// 0: TRY c=+6 f=0 ; 3: PUSH1 ; 4: THROW ; 5: NOP ; 6: (catch) PUSH2 ; 7: ENDTRY +2 ; 9: PUSH3
